@@ -103,152 +103,97 @@ def run(facts, tier, ctx):
     ch = chooser(facts)
     g = RuleResult("GUARD", "every non-verbatim candidate reaches the chooser's result only through a comparison of its "
                    "real bit count with a bound derived from the verbatim baseline")
-    base_bb = [bi for bi, t in ch.calls()
-               if (t.get("fn") or {}).get("def", "").endswith("Verbatim::count_bits_from_metadata")][0]
-
-    # candidate sources
-    cands = []
-    for bi, t in ch.calls():
-        fn = t.get("fn")
-        if not fn or t.get("dty") not in (SUBFRAME, OPT_SUBFRAME):
-            continue
-        if not fn.get("local") or fn["name"] in ("into", "from"):
-            # conversions: exempt iff from Constant / Verbatim
-            if fn["name"] in ("into", "from"):
-                at = (t.get("argtys") or [""])[0]
-                if at.endswith("::Constant") or at.endswith("::Verbatim"):
-                    g.ok({"function": ch.id, "site": ch.loc(bi, "term"), "candidate": at, "verdict": "ok",
-                          "why": "constant / verbatim subframe: exempt (8+bps <= verbatim size)"}, trivial=True)
-                    continue
-                cands.append((bi, t))
-            continue
-        if fn["def"].startswith("std::") or fn["def"].startswith("core::"):
-            continue
-        cands.append((bi, t))
-
-    def cond_ok(cond_op, value_locals):
-        for o in ch.origins(cond_op):
-            if o[0] != "rv" or o[3]["k"] != "bin" or o[3]["op"] not in ("Lt", "Le"):
-                return False, "condition is not a `<`/`<=` comparison"
-            a, b = o[3]["a"], o[3]["b"]
-            if not is_count_bits_of(ch, a, value_locals):
-                return False, "left operand is not BitRepr::count_bits of the candidate itself (an estimate?)"
-            if not depends_on_call(facts, ch, b, base_bb):
-                return False, "bound is not derived from the verbatim baseline"
-        return True, ""
-
-    def filter_closure_ok(cl, agg_ops):
-        # closure(&x) -> count_bits(x) < captured bound
-        for o in cl.place_origins({"l": 0, "p": []}):
-            if o[0] != "rv" or o[3]["k"] != "bin" or o[3]["op"] not in ("Lt", "Le"):
-                return False, "filter predicate is not a `<`/`<=` comparison"
-            a, b = o[3]["a"], o[3]["b"]
-            okc = False
-            for x in cl.origins(a):
-                if x[0] == "call" and (x[2].get("fn") or {}).get("name") == "count_bits" \
-                        and (x[2]["fn"].get("trait") == "component::bitrepr::BitRepr"):
-                    if any(r[0] == "param" and r[1] == 2 for r in cl.origins(x[2]["args"][0])):
-                        okc = True
-            if not okc:
-                return False, "filter predicate does not take BitRepr::count_bits of the candidate"
-            dep = False
-            for x in cl.origins(b):
-                if x[0] == "param" and x[1] == 1:
-                    m = re.match(r"^\*?\.(\d+)", x[2])
-                    if m and int(m.group(1)) < len(agg_ops) and depends_on_call(facts, ch, agg_ops[int(m.group(1))], base_bb):
-                        dep = True
-            if not dep:
-                return False, "filter bound is not derived from the verbatim baseline"
-        return True, ""
-
-    for (cb, ct) in cands:
-        callee = ct["fn"]["def"]
-        where = ch.loc(cb, "term")
-        # forward tracking
-        start = ct["dst"]["l"]
-        state = {}  # local -> admitted(bool)
-        work = [(start, False)]
-        reached_unadmitted = None
-        admitted_sites = []
-        refusals = []
-        while work:
-            l, adm = work.pop()
-            if l in state and (state[l] is False or state[l] == adm):
-                # already processed with an equal-or-weaker flag
-                if state[l] == adm or state[l] is False:
-                    continue
-            state[l] = adm
-            if l == 0:
-                if not adm:
-                    reached_unadmitted = "returned"
-                continue
-            for (ub, us) in ch.uses_of_local(l):
-                if us == "term":
-                    t = ch.term(ub)
-                    if t["k"] != "call":
-                        continue
-                    fn = t.get("fn") or {}
-                    d = fn.get("def", "")
-                    name = fn.get("name")
-                    vlocals = set(k for k in state)
-                    if d.startswith("core::bool::<impl bool>::then_some") and op_local(t["args"][1]) == l:
-                        ok, why = cond_ok(t["args"][0], vlocals | {("call", cb)})
-                        if ok:
-                            admitted_sites.append(ch.loc(ub, "term"))
-                            work.append((t["dst"]["l"], True))
-                        else:
-                            refusals.append("%s: %s" % (ch.loc(ub, "term"), why))
-                            work.append((t["dst"]["l"], adm))
-                        continue
-                    if d.startswith("std::option::Option::<T>::filter") and op_local(t["args"][0]) == l:
-                        cl = closure_arg_body(facts, ch, t["args"][1])
-                        agg_ops = []
-                        for o in ch.origins(t["args"][1]):
-                            if o[0] == "agg":
-                                agg_ops = o[3]["ops"]
-                        if cl is not None:
-                            ok, why = filter_closure_ok(cl, agg_ops)
-                        else:
-                            ok, why = False, "filter predicate is not a closure"
-                        if ok:
-                            admitted_sites.append(ch.loc(ub, "term"))
-                            work.append((t["dst"]["l"], True))
-                        else:
-                            refusals.append("%s: %s" % (ch.loc(ub, "term"), why))
-                            work.append((t["dst"]["l"], adm))
-                        continue
-                    dty = t.get("dty") or ""
-                    if "component::datatype::SubFrame" in dty and not t["dst"]["p"]:
-                        work.append((t["dst"]["l"], adm))
-                    continue
-                s = ch.blocks[ub]["stmts"][us]
-                if s["k"] == "assign" and s["rv"]["k"] in ("use", "ref", "copyderef", "agg", "cast"):
-                    work.append((s["dst"]["l"], adm))
-        sample = {"function": ch.id, "candidate_from": callee, "site": where, "admitted_at": admitted_sites}
-        if reached_unadmitted:
-            g.fail(Finding("GUARD", ch.id, "unadmitted:%s" % callee, 0, where,
-                           "the candidate produced by %s at %s reaches the chooser's result without passing a "
-                           "comparison of its real BitRepr::count_bits with a bound derived from the verbatim "
-                           "baseline%s" % (callee, where, ("; refused idioms: " + "; ".join(refusals)) if refusals else
-                                           " (it is selected on an estimate inside the callee and then preferred to "
-                                           "verbatim)")), dict(sample, verdict="FAIL", refused=refusals))
-        else:
-            g.ok(dict(sample, verdict="ok"))
-    g.require_floor(3, "candidate sources in the subframe chooser")
-
-    # fallback constructs Verbatim
-    fb_ok = False
+    # The chooser's result is summarised as a case tree (Option / bool combinators, `match`, early returns and `if` chains
+    # all become cases).  Every leaf must be a verbatim or constant subframe, or a candidate C whose path conditions contain
+    # `count_bits(C) < B` (or <=) for a bound B that is the verbatim baseline, min(baseline, ..), or a value itself known to
+    # be below such a bound on that path.
+    from . import lib_effect as E
+    from .c11 import _leaves
+    ectx = E.Ctx(facts)
+    ectx.open_loops = True
+    ectx.option_algebra = True
+    callee_ids = set()
     for bi, t in ch.calls():
         fn = t.get("fn") or {}
-        if fn.get("def", "").startswith("std::option::Option::<T>::unwrap_or") and t["dst"]["l"] == 0:
-            cl = closure_arg_body(facts, ch, t["args"][1]) if len(t["args"]) > 1 else None
-            if cl is not None and any("Verbatim" in ((x.get("fn") or {}).get("def", "")) for _b, x in cl.calls()):
-                fb_ok = True
-    if fb_ok:
-        g.ok({"function": ch.id, "clause": "the fallback of the final unwrap_or_else constructs Verbatim", "verdict": "ok"})
-    else:
-        g.fail(Finding("GUARD", ch.id, "fallback-not-verbatim", 0, ch.loc(),
-                       "the chooser's result is not `candidates.unwrap_or_else(|| Verbatim ..)`: undecided shape"))
+        if fn.get("local") and t.get("dty") in (SUBFRAME, OPT_SUBFRAME) and fn.get("name") not in ("into", "from"):
+            callee_ids.add(fn["def"])
+    ectx.noinline = [r"count_bits$", r"count_bits_from_metadata$", r"from_samples$", r"is_constant", r"Constant::from_parts$"] \
+        + [re.escape(c) + "$" for c in sorted(callee_ids)]
+    try:
+        itp = E.Interp(ectx, ch)
+        itp.run()
+        leaves = _leaves(itp.retval)
+    except E.Undecided as e:
+        g.fail(Finding("GUARD", ch.id, "undecided", 0, ch.loc(), "cannot summarise the subframe chooser: %s" % e))
+        out.append(g)
+        leaves = None
+    is_base = lambda x: isinstance(x, tuple) and x and x[0] == "call" and x[1].endswith("Verbatim::count_bits_from_metadata")
+
+    def bounded(x, conds, depth=0):
+        """x <= verbatim baseline on this path"""
+        x = E.strip_casts(x)
+        if depth > 6 or not isinstance(x, tuple) or not x:
+            return False
+        if is_base(x):
+            return True
+        if x[0] == "call" and re.search(r"(^|::)min(::<\w+>)?$", x[1]) and len(x[2]) == 2:
+            return any(bounded(a_, conds, depth + 1) for a_ in x[2])
+        if x[0] == "case":
+            return all(bounded(v, conds + ((x[1], lab if isinstance(lab, tuple) else (lab,)),), depth + 1) for lab, v in x[2])
+        cx = E.canon(x)
+        for c, labs in conds:
+            c0 = E.strip_casts(c)
+            if isinstance(c0, tuple) and c0 and c0[0] == "bin" and c0[1] in ("Lt", "Le") and labs == (1,) \
+                    and E.canon(c0[2]) == cx and bounded(c0[3], conds, depth + 1):
+                return True
+            if isinstance(c0, tuple) and c0 and c0[0] == "bin" and c0[1] in ("Ge", "Gt") and labs == (0,) \
+                    and E.canon(c0[2]) == cx and bounded(c0[3], conds, depth + 1):
+                return True
+        return False
+    nver = 0
+    for conds, leaf in (leaves or []):
+        l0 = E.strip_casts(leaf)
+        while isinstance(l0, tuple) and l0 and l0[0] == "call" and re.search(r"::(into|from)$", l0[1]) and len(l0[2]) == 1:
+            l0 = E.strip_casts(l0[2][0])
+        txt = E.canon(l0)
+        if "variant-mismatch" in str(l0):
+            continue            # payload of a Some taken on a path where the value is None: infeasible by construction
+        if isinstance(l0, tuple) and l0[0] == "call" and re.search(r"Verbatim::from_samples$", l0[1]):
+            nver += 1
+            g.ok({"function": ch.id, "leaf": "verbatim", "verdict": "ok"}, trivial=True)
+            continue
+        if isinstance(l0, tuple) and l0[0] == "call" and re.search(r"Constant::from_parts$", l0[1]):
+            g.ok({"function": ch.id, "leaf": "constant", "verdict": "ok",
+                  "why": "constant subframe: exempt (8+bps <= verbatim size)"}, trivial=True)
+            continue
+        ok = False
+        for c, labs in conds:
+            c0 = E.strip_casts(c)
+            if not (isinstance(c0, tuple) and c0 and c0[0] == "bin"):
+                continue
+            op, lhs, rhs = c0[1], E.strip_casts(c0[2]), c0[3]
+            if (op in ("Lt", "Le") and labs == (1,)) or (op in ("Ge", "Gt") and labs == (0,)):
+                if lhs[0] == "call" and re.search(r"BitRepr>::count_bits$", lhs[1]) and len(lhs[2]) == 1 \
+                        and E.canon(lhs[2][0]) == txt and bounded(rhs, conds):
+                    ok = True
+        src = re.sub(r"\(.*", "", txt)[:60]
+        sample = {"function": ch.id, "candidate": src}
+        if ok:
+            g.ok(dict(sample, verdict="ok", why="selected only under count_bits(candidate) < bound <= verbatim baseline"))
+        else:
+            g.fail(Finding("GUARD", ch.id, "unadmitted:%s" % src, 0, ch.loc(),
+                           "the subframe chooser can return the candidate %s on a path (%s) that does not compare its real "
+                           "BitRepr::count_bits with a bound derived from the verbatim baseline: a candidate selected on an "
+                           "estimate can be larger than the verbatim encoding"
+                           % (txt[:100], "; ".join("%s=%s" % (E.show(c)[:50], list(l)) for c, l in conds[-4:]))),
+                   dict(sample, verdict="FAIL"))
+    if leaves is not None:
+        if nver:
+            g.ok({"function": ch.id, "clause": "the fallback constructs Verbatim", "verdict": "ok"})
+        else:
+            g.fail(Finding("GUARD", ch.id, "fallback-not-verbatim", 0, ch.loc(),
+                           "no path of the chooser returns a verbatim subframe"))
+        g.require_floor(3, "leaves of the subframe chooser")
     out.append(g)
 
     # ------------------------------------------------------------- stereo
@@ -275,6 +220,70 @@ def run(facts, tier, ctx):
                         continue
                 break
             defs = b.whole_defs(l)
+            # `let (best, _) = candidates.fold((Independent, indep_bits), |best, (a, bits)| if bits < best.1 {..} else {best})`
+            folded = False
+            for (db, ds_) in defs:
+                src = None
+                if ds_ != "term":
+                    rv0 = b.def_rvalue((db, ds_))
+                    if rv0.get("k") == "use" and rv0["op"].get("pl") and rv0["op"]["pl"]["p"]:
+                        src = rv0["op"]["pl"]["l"]
+                for (fb_, fs_) in (b.whole_defs(src) if src is not None else []):
+                    if fs_ != "term":
+                        continue
+                    ft = b.term(fb_)
+                    ffn = ft.get("fn") or {}
+                    if ffn.get("name") != "fold" or ffn.get("trait") != "std::iter::Iterator" or len(ft["args"]) != 3:
+                        continue
+                    folded = True
+                    cl = closure_arg_body(facts, b, ft["args"][2])
+                    where = b.loc(fb_, "term")
+                    pa = real_size_slice(facts, b, ft["args"][0])
+                    pb_ = real_size_slice(facts, b, ft["args"][1])
+                    okf = cl is not None and pa[0] and pb_[0]
+                    why = "fold operands are not sums of BitRepr::count_bits results: %s %s" % (pa[1], pb_[1])
+                    if okf:
+                        # in the closure: a result whose assignment is not the accumulator's is built only under `<`/`<=`
+                        for cb_, cs_, cst in cl.iter_stmts():
+                            if cst["k"] != "assign" or cst["rv"]["k"] != "agg" or cst["rv"].get("ak") != "tuple":
+                                continue
+                            if cl.local_ty(cst["dst"]["l"]) != cl.local_ty(0):
+                                continue
+                            first = cst["rv"]["ops"][0]
+                            from_acc = all(o[0] == "param" and o[1] == 2 for o in cl.origins(first)) and bool(cl.origins(first))
+                            if from_acc:
+                                continue
+                            guarded = False
+                            for sb in sorted(cl.live):
+                                stt = cl.term(sb)
+                                if stt["k"] != "switch" or not cl.dominates(sb, cb_) or sb == cb_:
+                                    continue
+                                for o in cl.origins(stt["d"]):
+                                    if o[0] == "rv" and o[3]["k"] == "bin" and o[3]["op"] in ("Lt", "Le"):
+                                        true_t = [tb for val, tb in stt["vals"] if val == 1]
+                                        true_t = true_t[0] if true_t else stt["else"]
+                                        false_t = [tb for val, tb in stt["vals"] if val == 0]
+                                        false_t = false_t[0] if false_t else stt["else"]
+                                        oa = cl.origins(o[3]["a"])
+                                        ob = cl.origins(o[3]["b"])
+                                        frm = lambda os_, p: bool(os_) and all(x[0] == "param" and x[1] == p for x in os_)
+                                        if (cb_ == true_t or cb_ in cl.reachable(true_t)) \
+                                                and not (cb_ == false_t or cb_ in cl.reachable(false_t, removed={sb})) \
+                                                and frm(oa, 3) and frm(ob, 2):
+                                            guarded = True
+                            if not guarded:
+                                okf = False
+                                why = "the fold closure replaces the best assignment at %s without a `<` between the " \
+                                      "element's size and the best size" % cl.loc(cb_, cs_)
+                    if okf:
+                        st.ok({"function": b.id, "site": where, "assigns": "argmin fold", "verdict": "ok",
+                               "why": "fold from (Independent, independent size); replaced only under element size < best size"})
+                        st.ok({"function": b.id, "site": where, "assigns": "Independent (fold seed)", "verdict": "ok"}, trivial=True)
+                    else:
+                        st.fail(Finding("GUARD/stereo", b.id, "assignment-not-guarded-by-real-size", 0, where,
+                                        "the channel assignment is chosen at %s: %s" % (where, why)))
+            if folded:
+                continue
             for (db, ds_) in defs:
                 rv = b.def_rvalue((db, ds_))
                 where = b.loc(db, ds_)
